@@ -191,6 +191,10 @@ def rand_score(rng, n_chords=(1, 4), parts=('piano__0', 'violin__0', 'cello__0')
                 # mode, dynamics).  Seed C12-5 sliced "distinct" voices once, keyed on Note.__eq__, which ignores those.
                 from musiclang import Melody
                 src = sc[rng.choice(list(sc))]
+                if rng.random() < 0.35:
+                    # an exact unison doubling: every note identical (seed C07-9 dropped duplicate rows of one track)
+                    sc[p] = Melody([n.copy() for n in src.notes])
+                    continue
                 sc[p] = Melody([n.copy() if (n.type in ('r', 'l') or rng.random() < 0.5)
                                 else sibling_note(rng, n, mel.get('p_acc', 0.1), mel.get('p_mode', 0.1), mel.get('p_amp', 0.3))
                                 for n in src.notes])
